@@ -8,6 +8,18 @@ import sys
 VERIF = os.path.dirname(os.path.dirname(os.path.abspath(__file__)))
 
 CLAIMED = {
+    "C03": dict(
+        technique="typestate dispatch agreement (harvested preconditions + predicate algebra) over the serializer's enumerated paths, encoder tables vs RFC reference for all values, framing/member-order path rules, encoder->decoder mirror links",
+        text="cbor_serialize's switch is exhaustive and each arm reaches the serializer whose own asserted precondition is that "
+             "type; each width arm uses getter and encoder of that width and major type with the value unconverted; the "
+             "encoder tables equal the RFC 8949 head encoding for all 2^64 values (offset, shortest form, big-endian, "
+             "canonical NaN); every successful path of the composite serializers has the right framing (definite start "
+             "with the item's own count / indefinite start ... break / tag head then child) and emits members in storage "
+             "order (paths unrolled to two members); every emitted initial byte is decoded by the arm of the same kind "
+             "and width consuming exactly the bytes written.",
+        note="Round-trip tree equality and byte-identical re-serialization follow by structural induction from these "
+             "agreements (an argument, not an executed fact). Half-precision arithmetic is declined under C15.",
+        design="§4 C03"),
     "C04": dict(
         technique="contract-vs-implementation path check of every inserting operation and getter, per-type release table (T-release) extracted from cbor_decref's paths against the constructor table, ownership-balance typestate over every library function",
         text="Inductive argument with three machine-checked premises: (A) each API operation has exactly its documented "
